@@ -360,6 +360,139 @@ func monC14(h *Hist, o *TxnObs) {
 		}
 		h.V("C14", sig+":"+fn, fmt.Sprintf("write pool %d + challenge pool %d = %d, but owner refund %d + provider rewards %+d = %d (missing %d)%s", pre.WritePool, preCP, total, refund, rewards, refund+rewards, total-refund-rewards, ctx), o)
 	}
+	// "Closing pays blobbers at most their earned challenge rewards plus at most the configured cancellation charge": conservation
+	// alone does not see a blobber paid out of the owner's refund. Each blobber's payment (growth of the rewards held for it and its
+	// delegates) is bounded by what it can have earned - its outstanding challenge pool value before the close - plus its share
+	// (by write price) of the cancellation charge, computed here from the allocation's terms and the configuration of the PRE state.
+	charge, frac, okCfg := clConfiguredCharge(h, o.Pre, pre)
+	if !okCfg {
+		h.C("C14", "closes_without_readable_config")
+		return
+	}
+	open := clOpenChallenges(h, o.Pre, req.AllocationID, o.Block.Round)
+	var totalWP, sumPaid, sumCPIV float64
+	for _, b := range pre.Blobbers {
+		totalWP += float64(b.WritePrice)
+	}
+	maxU, maxE, clean := 0, 0, false
+	for _, b := range pre.Blobbers {
+		q, p := h.stakePool(o.Pre, "blobber", b.BlobberID), h.stakePool(o.Post, "blobber", b.BlobberID)
+		paid := float64(int64(spTotalReward(p)) - int64(spTotalReward(q)))
+		share := 0.0
+		if totalWP > 0 {
+			share = charge * float64(b.WritePrice) / totalWP
+		}
+		bound := float64(b.CPIV) + share
+		sumPaid += paid
+		sumCPIV += float64(b.CPIV)
+		oc := open[b.BlobberID]
+		if oc.Unexpired > maxU {
+			maxU = oc.Unexpired
+		}
+		if oc.Expired > maxE {
+			maxE = oc.Expired
+		}
+		if oc.Unexpired > 0 && oc.Expired == 0 && clFailedBefore(h, o.Pre, req.AllocationID, b.BlobberID) == 0 {
+			clean = true
+		}
+		h.C("C14", "blobber_close_payments_bounded")
+		if paid > bound+2+bound*1e-9 {
+			h.V("C14", "close-overpays-blobber:"+fn, fmt.Sprintf("blobber %s received %.0f on close; it can have earned at most its outstanding challenge pool value %d, and its share of the configured cancellation charge is %.0f (charge %.0f = %.4g of the allocation cost, write price %d of %.0f) [open challenges of this blobber: %d inside the completion window, %d expired]",
+				h.name(b.BlobberID), paid, b.CPIV, share, charge, frac, b.WritePrice, totalWP, oc.Unexpired, oc.Expired), o)
+		}
+	}
+	if tb := sumCPIV + charge; sumPaid > tb+float64(2*len(pre.Blobbers))+tb*1e-9 {
+		h.V("C14", "close-overpays-blobbers-in-total:"+fn, fmt.Sprintf("blobbers received %.0f on close; outstanding challenge pool values %.0f + configured cancellation charge %.0f", sumPaid, sumCPIV, charge), o)
+	}
+	if maxU > 0 {
+		h.C("C14", "closes_with_open_challenges_inside_completion_window")
+	}
+	if maxE > 0 {
+		h.C("C14", "closes_with_expired_open_challenges")
+	}
+	if clean {
+		h.C("C14", "closes_with_only_unanswered_unexpired_challenges_on_a_blobber")
+	}
+	if r != nil {
+		r.Distinct(fmt.Sprintf("close-payments|%s|open-in-window=%d|open-expired=%d|charge>0=%v", fn, clMin(maxU, 3), clMin(maxE, 3), charge > 0))
+	}
+}
+
+func clMin(a, b int) int {
+	if a < b {
+		return a
+	}
+	return b
+}
+
+// clConfiguredCharge is the configured cancellation charge of an allocation: cancellation_charge (configuration of the given
+// state) times the cost of the allocation (sum over its blobbers of write price * size in GB, from the allocation's own terms).
+func clConfiguredCharge(h *Hist, s snap.Snapshot, a *allocView) (charge, frac float64, ok bool) {
+	for _, n := range h.NodesOfType(s, "*storagesc.Config") {
+		if f := F(n.Val, "CancellationCharge"); f.IsValid() {
+			frac, ok = f.Float(), true
+		}
+	}
+	if !ok {
+		return 0, 0, false
+	}
+	var cost float64
+	for _, b := range a.Blobbers {
+		cost += float64(b.Size) / (1024 * 1024 * 1024) * float64(b.WritePrice)
+	}
+	return cost * frac, frac, true
+}
+
+type clOpenCount struct{ Unexpired, Expired int }
+
+// clOpenChallenges counts, per blobber, the open challenges of an allocation recorded in a state: still inside the completion
+// window at the given round (creation round + max_challenge_completion_rounds >= round) or past it.
+func clOpenChallenges(h *Hist, s snap.Snapshot, allocID string, round int64) map[string]clOpenCount {
+	out := map[string]clOpenCount{}
+	var maxCCR int64
+	for _, n := range h.NodesOfType(s, "*storagesc.Config") {
+		maxCCR = I(n.Val, "MaxChallengeCompletionRounds")
+	}
+	for _, n := range h.NodesOfType(s, "*storagesc.AllocationChallenges") {
+		if Str(n.Val, "AllocationID") != allocID {
+			continue
+		}
+		l := F(n.Val, "OpenChallenges")
+		if !l.IsValid() {
+			continue
+		}
+		for i := 0; i < l.Len(); i++ {
+			d := l.Index(i).Interface()
+			c := out[Str(d, "BlobberID")]
+			if I(d, "RoundCreatedAt")+maxCCR < round {
+				c.Expired++
+			} else {
+				c.Unexpired++
+			}
+			out[Str(d, "BlobberID")] = c
+		}
+	}
+	return out
+}
+
+// clFailedBefore reads the failed-challenge counter of one blobber of an allocation (coverage counters only, no verdict uses it).
+func clFailedBefore(h *Hist, s snap.Snapshot, allocID, blobberID string) int64 {
+	for _, n := range h.NodesOfType(s, "*storagesc.StorageAllocation") {
+		if Str(n.Val, "ID") != allocID {
+			continue
+		}
+		bs := F(n.Val, "BlobberAllocs")
+		if !bs.IsValid() {
+			continue
+		}
+		for i := 0; i < bs.Len(); i++ {
+			d := bs.Index(i).Interface()
+			if Str(d, "BlobberID") == blobberID {
+				return I(d, "Stats.FailedChallenges")
+			}
+		}
+	}
+	return 0
 }
 
 // ---- C15: read markers charge once -----------------------------------------------------------------------------------------------
